@@ -477,6 +477,26 @@ def f6(ctx):
             ctx.check('%s/%s' % (name, gid), ok,
                       '%s: rejection `%s` (%s) dominates the result' % (name, gid, exc),
                       '%s: rejection `%s`: %s' % (name, gid, why), mod.loc(fn))
+    # the input is flattened with the flags of the two treespecs: none_is_leaf of the outer one
+    # (they were just checked to be equal) and the namespace of whichever treespec carries one
+    fn = mod.func('tree_transpose')
+    fl = [c for c in calls_under(fn) if call_name(c) == 'tree_flatten']
+    ctx.require(len(fl) == 1, 'tree_transpose: %d tree_flatten calls' % len(fl))
+    kw = {k.arg: k.value for k in fl[0].keywords}
+    nsv = kw.get('namespace')
+    text = src(nsv) if nsv is not None else ''
+    if isinstance(nsv, ast.Name):
+        defs = [s_ for s_ in fn.body if isinstance(s_, ast.Assign) and is_name(s_.targets[0], nsv.id)]
+        text = ' '.join(src(d_.value) for d_ in defs)
+    ctx.check('tree_transpose/namespace-of-both', 'outer_treespec.namespace' in text and
+              'inner_treespec.namespace' in text,
+              'tree_transpose flattens in the namespace of whichever treespec carries one',
+              'tree_transpose flattens with namespace=%s: when only the other treespec carries a '
+              'namespace its custom nodes / dict-order mode are ignored' % (text or None), mod.loc(fl[0]))
+    nil = kw.get('none_is_leaf')
+    ctx.check('tree_transpose/none_is_leaf-of-treespecs', nil is not None and
+              src(nil) in ('outer_treespec.none_is_leaf', 'inner_treespec.none_is_leaf'),
+              'tree_transpose flattens with the treespecs\' none_is_leaf', None, mod.loc(fl[0]))
     # transpose regrouping: chunk width == stride == inner_size, outer.unflatten consumes the
     # transposed groups, inner.unflatten the subtrees (F5, syntactic)
     fn = mod.func('tree_transpose')
